@@ -110,7 +110,9 @@ func run_simulation(args []string) {
 		fmt.Printf("==== %.1f%% - Generation %d / %d ====\n", pcComplete, i+1, genCount)
 
 		// === RUN GENERATION ===
+		verifPoint("run-begin", i)
 		genSimulationTime, nodesInGeneration := runGeneration(i, models, modelNames) // synchronous
+		verifPoint("run-end", i)
 		nodesCompleted += nodesInGeneration
 		totalTimeSimulation += genSimulationTime
 		// === /RUN GENERATION ===
@@ -118,12 +120,15 @@ func run_simulation(args []string) {
 		// === WRITE GENERATION OUTPUTS ===
 		// asynchronous
 		if outputFn != "" {
+			verifPoint("writer-spawn", i)
 			go func(g int) {
 				if g > 0 {
 					prevG := -1
 					for {
 						prevG = <-writingDone
+						verifPoint("token-recv", prevG)
 
+						verifPoint("purge", prevG)
 						for _, modelName := range modelNames {
 							modelRef := models[modelName]
 							modelRef.PurgeGeneration(prevG)
@@ -138,8 +143,11 @@ func run_simulation(args []string) {
 					}
 				}
 
+				verifPoint("write-begin", g)
 				writeGeneration(g, models, modelNames)
+				verifPoint("write-end", g)
 				writingDone <- g
+				verifPoint("token-sent", g)
 			}(i)
 		}
 		// fmt.Printf("Results written in %f seconds\n", genWriteElapsed.Seconds())
@@ -147,6 +155,7 @@ func run_simulation(args []string) {
 
 		// === PROCESS LINKS ===
 		// synchronous
+		verifPoint("links-begin", i)
 		genLinkStart := time.Now()
 		currentLink := nextLink
 		for {
@@ -194,6 +203,7 @@ func run_simulation(args []string) {
 			data.AddToFloat64Array(destData, srcData)
 			nextLink++
 		}
+		verifPoint("links-end", i)
 		genLinkEnd := time.Now()
 		genLinkElapsed := genLinkEnd.Sub(genLinkStart).Seconds()
 		totalTimeLinks += genLinkElapsed
@@ -221,6 +231,7 @@ func run_simulation(args []string) {
 		}
 	}
 
+	verifPoint("main-exit", genCount)
 	simEnd := time.Now()
 	finalWriteElapsed := simEnd.Sub(generationsEnd)
 	totalTimeFinalWrite = finalWriteElapsed.Seconds()
